@@ -99,6 +99,8 @@ def run(tier, seed, build, pid="C01"):
     rng = random.Random(seed * 1009 + 1)
     n = 400 if tier == "quick" else 5000
     cases = gen_cases(rng, n)
+    for i, c in enumerate(cases):      # every seventh program reaches two of its multipliers through a re-assigned `length` variable
+        if i % 7 == 3: c["text"] = pepper.lengthify(random.Random(seed * 7919 + i), c["text"])
     impl = fw.run_impl("props.c01", "impl_case", [{"text": c["text"]} for c in cases])
     reqs = [["comp", [r.get("ctr0", 0), "", c["prog"]["decl"], c["prog"]["body"]]] for c, r in zip(cases, impl)]
     model = fw.run_model(reqs)
